@@ -20,6 +20,8 @@ use std::sync::Mutex;
 struct CachedInfoset {
     reg: RegretInfoset,
     cached: usize,
+    #[cfg(feature = "verif-hooks")]
+    verif: Option<crate::verif::SiteHandle>,
 }
 
 impl CachedInfoset {
@@ -28,13 +30,19 @@ impl CachedInfoset {
         CachedInfoset {
             reg: RegretInfoset::new(num_actions),
             cached: 0,
+            #[cfg(feature = "verif-hooks")]
+            verif: crate::verif::SiteHandle::new(crate::verif::SiteKind::Player),
         }
     }
 
     /// Sample an action from the current strategy, caches between resets
     fn sample(&mut self) -> usize {
         if self.cached == 0 {
+            #[cfg(feature = "verif-hooks")]
+            let thread_rng = || crate::verif::site_rng(&self.verif, thread_rng());
             let res = Multinomial::new(&self.reg.strat).sample(&mut thread_rng());
+            #[cfg(feature = "verif-hooks")]
+            let res = crate::verif::draw(&self.verif, &self.reg.strat, res);
             self.cached = res + 1;
             res
         } else {
@@ -101,6 +109,8 @@ impl<T: ActiveInfo> ActiveRecurse for Mutex<T> {
         // this is the unique visit to this infoset this iteration, however in practice switching
         // to unsafe rust didn't actually improve performance, likely because the locking isn't a
         // huge bottleneck
+        #[cfg(feature = "verif-hooks")]
+        crate::verif::yield_point();
         self.try_lock().unwrap().recurse(player, rec)
     }
 }
@@ -310,6 +320,10 @@ fn single_player_iter<'a, const FIRST: bool>(
     params: &RegretParams,
 ) -> f64 {
     let [active_player_infosets, external_player_infosets] = player_infosets;
+    #[cfg(feature = "verif-hooks")]
+    let verif_session = crate::verif::current();
+    #[cfg(feature = "verif-hooks")]
+    crate::verif::begin_pass(&verif_session);
     // compute threashold of `target` nodes for efficient multi threading
     thread_threshold::<FIRST>(
         root,
@@ -322,6 +336,8 @@ fn single_player_iter<'a, const FIRST: bool>(
     // send threshold to threads for computation
     work.payoffs
         .par_extend(work.queue.par_drain(..).map(|node| {
+            #[cfg(feature = "verif-hooks")]
+            crate::verif::task_start(&verif_session);
             let payoff = recurse_regret::<FIRST>(
                 node,
                 chance_infosets,
@@ -379,7 +395,11 @@ pub(crate) fn solve_external_multi(
     let pool = ThreadPoolBuilder::new()
         .num_threads(num_threads.get())
         .build()?;
+    #[cfg(feature = "verif-hooks")]
+    let verif_session = crate::verif::current();
     pool.scope(|_| {
+        #[cfg(feature = "verif-hooks")]
+        let _verif_guard = crate::verif::install(verif_session.clone());
         // initialize workspace
         let mut work = Workspace::with_capacity(target.get());
 
@@ -438,7 +458,11 @@ pub(crate) fn solve_external_single(
             .collect::<Box<[_]>>()
     });
     let [mut reg_one, mut reg_two] = [f64::INFINITY; 2];
+    #[cfg(feature = "verif-hooks")]
+    let verif_session = crate::verif::current();
     for it in 1..=max_iter {
+        #[cfg(feature = "verif-hooks")]
+        crate::verif::begin_pass(&verif_session);
         // player one
         recurse_regret::<true>(start, &chance_infosets, &player_one, &player_two, &());
         chance_infosets
@@ -448,6 +472,8 @@ pub(crate) fn solve_external_single(
             .iter_mut()
             .map(|info| info.get_mut().advance::<true>(it, params))
             .sum();
+        #[cfg(feature = "verif-hooks")]
+        crate::verif::begin_pass(&verif_session);
         // player two
         recurse_regret::<false>(start, &chance_infosets, &player_two, &player_one, &());
         chance_infosets
